@@ -25,6 +25,9 @@ StylePool == {
   St("#,##0", "default", "none", "none", "none", FALSE),
   St("0.0 \"x\"", "default", "none", "none", "none", FALSE),
   St("mm-dd-yy", "default", "none", "none", "none", FALSE),        \* text of built-in format 14
+  St("@", "default", "none", "none", "none", FALSE),               \* the last built-in format: its id borders the first custom id
+  St("##0.0E+0", "default", "none", "none", "none", FALSE),        \* the last but one
+  St("0.000 \"kg\"", "default", "none", "none", "none", FALSE),     \* a second custom format
   St("General", "default", "none", "none", "none", FALSE),         \* differs from "general" only by case
   St("general", "bold", "none", "none", "none", FALSE),
   St("general", "italic14", "none", "none", "none", FALSE),
